@@ -298,11 +298,15 @@ func (c *GroupCoordinator) Heartbeat(ctx context.Context, req *kmsg.HeartbeatReq
 		c.mu.Unlock()
 		return mkResp(protocol.ILLEGAL_GENERATION)
 	}
+	// A known member heartbeating with the current generation is alive even
+	// while the group rebalances; without this refresh a member that waits for
+	// slower members (or for the leader's sync) longer than its session timeout
+	// is expired although it never stopped heartbeating.
+	member.lastHeartbeat = time.Now()
 	if state.state != groupStateStable {
 		c.mu.Unlock()
 		return mkResp(protocol.REBALANCE_IN_PROGRESS)
 	}
-	member.lastHeartbeat = time.Now()
 	resp := mkResp(protocol.NONE)
 	if err := c.persistGroupLocked(ctx, req.Group, state); err != nil {
 		resp.ErrorCode = protocol.UNKNOWN_SERVER_ERROR
